@@ -9,7 +9,7 @@ EXPLANATION = (
     "repr(text)[1:-1] with double quotes escaped + quote, from extract_docstring(xml_source, class, C++ method "
     "name, argument names) of the very binding. Q2 (contradiction rule): the Optional results of Element.find and "
     "element.text and attrib[...] lookups are not dereferenced unless a dominating test excludes None/absence "
-    "(the module itself tests some of them, so the untested ones are the contradictions). Q3: unreadable or "
+    "(the module itself tests some of them, so the untested ones are the contradictions). Presence of an optional element is tested with `is (not) None`, never by the Element's truth value (an Element without children is falsy). Q3: unreadable or "
     "malformed XML is turned into None by handlers covering OSError and ParseError, and every caller tests it. Q4: "
     "the overload counter taken from the memory is used as an index only under a bound. Q5: the index query "
     "interpolates the class, the member query the method; candidates are filtered by arity and by name at the "
@@ -23,6 +23,7 @@ ASSUMPTIONS = ["xml.etree.ElementTree: Element.find returns None when nothing ma
 def run(ctx, rep):
     rep.run(RX.rule_confinement, ctx, rep, "Q1")
     rep.run(RX.rule_optional_results, ctx, rep, "Q2", min_sites=8)
+    rep.run(RX.rule_element_truthiness, ctx, rep, "Q2")
     rep.run(RX.rule_unreadable_xml, ctx, rep, "Q3")
     rep.run(RX.rule_overload_counter, ctx, rep, "Q4")
     rep.run(RX.rule_lookup_provenance, ctx, rep, "Q5")
